@@ -402,8 +402,9 @@ def _replay_two_runs(rp):
     import json
     which = rp['which']
     code = '''
-import json, sys
+import json, sys, os
 sys.path.insert(0, %r)
+sys.path.insert(0, os.path.join(os.environ.get('GAMBATOOLS_REPO', '/repo'), 'src'))
 from harness import nat
 import gambatools.dfa_algorithms as DA, gambatools.regexp_algorithms as RA
 D = nat.mk_dfa(json.loads(%r))
@@ -469,8 +470,9 @@ print(json.dumps(out))
 def _replay_two_runs_nfa(rp):
     import json
     code = '''
-import json, sys
+import json, sys, os
 sys.path.insert(0, %r)
+sys.path.insert(0, os.path.join(os.environ.get('GAMBATOOLS_REPO', '/repo'), 'src'))
 from harness import nat
 import gambatools.nfa_algorithms as NA
 N = nat.mk_nfa(json.loads(%r))
